@@ -676,17 +676,23 @@ class ExprMixin:
 
     # ------------------------------------------------------------------ containers
     def ev_List(self, node, st, ctx):
-        items = [self.ev(e, st, ctx) for e in node.elts]
-        if self.hint_elem is not None:
-            ety = self.hint_elem
-        elif not items:
-            ety = VAL
+        hint = self.hint_elem
+        saved = (self.hint_elem, self.hint_dict)
+        self.hint_elem = self.hint_dict = None  # the expected type is that of this display, not of displays nested in it
+        try:
+            items = [self.ev(e, st, ctx) for e in node.elts]
+        finally:
+            self.hint_elem, self.hint_dict = saved
+        if not items:
+            ety = hint if hint is not None else VAL
         else:
             ety = items[0].ty if all(i.ty == items[0].ty and (i.none is None or i.ty.is_ref) for i in items) else VAL
             if ety.kind == "tuple" and all(a.kind in ("int", "bool", "str", "real", "dict", "list", "obj") for a in ety.args):
                 pass  # list of plain tuples
             elif ety.kind in ("tuple", "none", "fun"):
                 ety = VAL
+            if hint is not None and (hint.kind in ("val", "opt") or ety.kind == "val" or ety.kind == hint.kind):
+                ety = hint  # e.g. a declared element type that the items can be read as
         return self.new_list(st, ety, items)
 
     def new_list(self, st, ety, items):
